@@ -67,7 +67,7 @@ func runHandlerParent(rng *rand.Rand, n int, out *Out, args []string) {
 		timedOut := false
 		select {
 		case werr = <-errc:
-		case <-time.After(120 * time.Second):
+		case <-time.After(900 * time.Second): // 40 sessions take ~15 s on a quiet machine; a loaded one needed more than 120 s once (thorough tier, DESIGN §8)
 			cmd.Process.Kill()
 			werr = <-errc
 			timedOut = true
